@@ -9,6 +9,7 @@ Theorems here hold for **all** strings of the stated classes.
 import Pastel.Model.Parser
 import Mathlib.Data.List.TakeWhile
 import Pastel.Lemmas.Turns
+import Pastel.Lemmas.ParseDigits
 
 namespace Pastel.C01
 open Pastel Pastel.P
@@ -377,6 +378,41 @@ theorem all_tags_no_panic (s : List Char) :
    tagNoCase_oklab_no_panic s⟩
 
 end nopanic
+
+/-! ### `rgb()` with decimal integers -/
+
+/-- **`rgb(A,B,C)` / `rgb(A, B, C)` with decimal integers is accepted and denotes the colour with
+those channel values** — for all runs of digits `A`, `B`, `C` (any length, so also values above
+255, which `from_rgba_float` clamps). -/
+theorem rgb_digits_meaning (a : Char) (as : List Char) (b : Char) (bs : List Char) (c : Char) (cs : List Char)
+    (sp : List Char) (hsp : sp = [] ∨ sp = [' '])
+    (ha : (a :: as).all isDigit = true) (hb : (b :: bs).all isDigit = true) (hc : (c :: cs).all isDigit = true) :
+    parseColor ('r' :: 'g' :: 'b' :: '(' :: ((a :: as) ++ ',' :: (sp ++ ((b :: bs) ++ ',' :: (sp ++ ((c :: cs) ++ [')'])))))) =
+      some (fromRgbaFloat (digitsVal (a :: as) / 255.0) (digitsVal (b :: bs) / 255.0) (digitsVal (c :: cs) / 255.0) 1.0) := by
+  have h3 := three_digits a as b bs c cs sp hsp ha hb hc
+  generalize hX : (a :: as) ++ ',' :: (sp ++ ((b :: bs) ++ ',' :: (sp ++ ((c :: cs) ++ [')'])))) = X at h3 ⊢
+  have hXl : ∃ mid, X = mid ++ [')'] := by
+    refine ⟨(a :: as) ++ ',' :: (sp ++ ((b :: bs) ++ ',' :: (sp ++ (c :: cs)))), ?_⟩
+    rw [← hX]; simp
+  obtain ⟨mid, hmid⟩ := hXl
+  have htrim : trim ('r' :: 'g' :: 'b' :: '(' :: X) = 'r' :: 'g' :: 'b' :: '(' :: X := by
+    rw [hmid]
+    exact trim_id 'r' ('g' :: 'b' :: '(' :: mid) ')' (by decide) (by decide)
+  have hpre : rgbPrefix ('r' :: 'g' :: 'b' :: '(' :: X) = (true, X) := by
+    unfold rgbPrefix tag
+    simp [List.isPrefixOf]
+  have hnum : parseNumericRgb ('r' :: 'g' :: 'b' :: '(' :: X) =
+      .ok [] (fromRgbaFloat (digitsVal (a :: as) / 255.0) (digitsVal (b :: bs) / 255.0) (digitsVal (c :: cs) / 255.0) 1.0) := by
+    unfold parseNumericRgb
+    rw [hpre]
+    simp only [h3, PR.bind]
+  unfold parseColor parseColorWith
+  rw [htrim]
+  unfold altList allConsuming
+  rw [parseHex_r]
+  simp only []
+  unfold altList
+  simp only [hnum]
 
 /-! ### angles reduced modulo a turn -/
 
